@@ -95,6 +95,29 @@ dhcp-policies:
     apply-address: 192.0.2.9
 ";
 
+// K6/K7: K1's pool, plus a policy that tries to set the options the server itself must control
+// (lease time 51, server identifier 54) -- to values out of bounds / foreign, and to null.
+// erbium.conf(5) accepts apply-<any option>; the reply must still carry the pool's lease time and
+// this server's identifier.
+const K6_TEXT: &str = "---
+dhcp-policies:
+  - match-subnet: 192.0.2.0/24
+    apply-range: {start: 192.0.2.9, end: 192.0.2.10}
+    apply-lease-time: 7d
+    apply-server-id: 203.0.113.7
+";
+const K7_TEXT: &str = "---
+dhcp-policies:
+  - match-subnet: 192.0.2.0/24
+    apply-range: {start: 192.0.2.9, end: 192.0.2.10}
+    policies:
+      - match-hardware-address: 02:00:00:00:00:0a
+        apply-lease-time: null
+        apply-server-id: null
+      - match-hardware-address: 02:00:00:00:00:0b
+        apply-lease-time: 30s
+";
+
 fn k1_pool(s: Ipv4Addr, _c: &[u8]) -> Option<Vec<Ipv4Addr>> {
     if in1(s) { Some(vec![ip("192.0.2.9"), ip("192.0.2.10")]) } else { None }
 }
@@ -128,6 +151,8 @@ pub fn all_cfgs() -> Result<Vec<Cfg>, String> {
         ("K3", K3_TEXT, k3_pool, &[IF1, IF2]),
         ("K4", K4_TEXT, k4_pool, &[IF1]),
         ("K5", K5_TEXT, k5_pool, &[IF1]),
+        ("K6", K6_TEXT, k1_pool, &[IF1]),
+        ("K7", K7_TEXT, k1_pool, &[IF1]),
     ];
     let mut out = vec![];
     for (name, text, pool_for, ifaces) in specs {
@@ -673,6 +698,86 @@ pub fn judge(pre: &State, m: &MsgOp, res: &StepResult, post: &State, cfgs: &[Cfg
 }
 
 // ---------------------------------------------------------------------------
+// What the clients were told
+// ---------------------------------------------------------------------------
+// The oracles above read the lease store as the record of who holds what.  That is only as good as
+// the store: C01 and C09 are statements about what clients were *told* (offered, acknowledged).
+// `told_after` keeps that record independently -- the store as it would be if every reply were
+// recorded exactly as sent.  On correct code it equals the store after every transition (that is
+// what post-row-owner and the record-* oracles check).  Where it does not, the search follows the
+// consequences: it continues for a few more steps from the real (diverged) store and judges the
+// reply-level clauses against what the clients were told.
+
+const TOLD_ORACLES: [&str; 5] = ["double-lease", "holder-refused", "refused-with-free-address", "lost-address", "named-held-address"];
+
+pub fn told_after(pre_told: &State, m: &MsgOp, res: &StepResult) -> State {
+    let mut t = pre_told.clone();
+    if let StepResult::Reply(r) = res {
+        let l = match r.options.get(&51) {
+            Some(v) if v.len() == 4 => u32::from_be_bytes([v[0], v[1], v[2], v[3]]) as i64,
+            _ => MIN_LEASE,
+        };
+        t.retain(|row| row.ip != r.yiaddr);
+        t.push(Row { ip: r.yiaddr, client: CLIENTS[m.client].identity(), start: 0, expiry: l });
+        t.sort();
+    }
+    t
+}
+
+/// who holds what, without the start column and without expired entries
+fn holdings(s: &State) -> Vec<(Ipv4Addr, Vec<u8>, i64)> {
+    s.iter().filter(|r| r.expiry > 0).map(|r| (r.ip, r.client.clone(), r.expiry)).collect()
+}
+
+fn shift(s: &State, dt: i64) -> State {
+    s.iter().map(|r| Row { start: r.start - dt, expiry: r.expiry - dt, ..r.clone() }).collect()
+}
+
+/// Judge the reply-level clauses of C01/C09 against what the clients were told.
+pub fn judge_told(told: &State, m: &MsgOp, res: &StepResult, post: &State, cfgs: &[Cfg]) -> Vec<Judged> {
+    judge(told, m, res, post, cfgs)
+        .into_iter()
+        .filter(|jd| TOLD_ORACLES.contains(&jd.oracle))
+        .map(|mut jd| {
+            jd.what = format!("judged against what the clients were told (the store no longer records it): {}", jd.what);
+            jd.sig.push(("basis", "told".into()));
+            jd
+        })
+        .collect()
+}
+
+/// From a transition after which store and told-record differ, every continuation of <= `depth`
+/// operations; returns (steps executed, findings as (ops appended, judged)).
+pub fn consequences(real: &State, told: &State, cfgs: &[Cfg], alpha: &Alphabet, depth: u32) -> Result<(u64, Vec<(Vec<u32>, Judged)>), String> {
+    let mut out = vec![];
+    let mut n = 0u64;
+    let mut stack: Vec<(State, State, Vec<u32>)> = vec![(real.clone(), told.clone(), vec![])];
+    while let Some((real, told, path)) = stack.pop() {
+        for (oi, op) in alpha.ops.iter().enumerate() {
+            let (res, post) = step(&real, op, cfgs)?;
+            n += 1;
+            let mut p2 = path.clone();
+            p2.push(oi as u32);
+            let told2 = match op {
+                Op::Tick(dt) => shift(&told, *dt),
+                Op::Msg(m) => {
+                    for jd in judge_told(&told, m, &res, &post, cfgs) {
+                        if out.len() < 64 {
+                            out.push((p2.clone(), jd));
+                        }
+                    }
+                    told_after(&told, m, &res)
+                }
+            };
+            if (p2.len() as u32) < depth {
+                stack.push((post, told2, p2));
+            }
+        }
+    }
+    Ok((n, out))
+}
+
+// ---------------------------------------------------------------------------
 // BFS
 // ---------------------------------------------------------------------------
 
@@ -687,6 +792,10 @@ pub struct BfsStats {
     /// states in BFS order with their depth, for users that probe reachable states
     pub reached: Vec<(State, u32)>,
     pub parents: Vec<(u32, u32)>,
+    /// transitions after which the store differed from what the clients were told, and the steps
+    /// spent following their consequences
+    pub diverged_total: u64,
+    pub consequence_steps: u64,
 }
 
 pub struct Found {
@@ -820,6 +929,9 @@ pub fn bfs_from(cfgs: &[Cfg], alpha: &Alphabet, roots: &[State], max_depth: u32,
     let mut states_per_depth = vec![frontier.len() as u64];
     let mut depth_completed = 0;
     let mut capped = false;
+    // transitions after which the store differs from what the clients were told: (state, op, real post, told)
+    let mut diverged: Vec<(u32, u32, State, State)> = vec![];
+    let mut diverged_total = 0u64;
 
     for depth in 1..=max_depth {
         if frontier.is_empty() {
@@ -836,7 +948,7 @@ pub fn bfs_from(cfgs: &[Cfg], alpha: &Alphabet, roots: &[State], max_depth: u32,
                 capped = true;
                 break;
             }
-            type Succ = (u32, u32, State, String, Vec<Judged>);
+            type Succ = (u32, u32, State, String, Vec<Judged>, Option<State>);
             let results: Vec<Result<Vec<Succ>, String>> = chunk
                 .par_iter()
                 .map(|&sid| {
@@ -844,19 +956,29 @@ pub fn bfs_from(cfgs: &[Cfg], alpha: &Alphabet, roots: &[State], max_depth: u32,
                     let mut out = Vec::with_capacity(alpha.ops.len());
                     for (oi, op) in alpha.ops.iter().enumerate() {
                         let (res, post) = step(pre, op, cfgs)?;
-                        let (cls, judged) = match op {
-                            Op::Tick(_) => ("tick".to_string(), vec![]),
-                            Op::Msg(m) => (outcome_class(m, &res, pre, &post), judge(pre, m, &res, &post, cfgs)),
+                        let (cls, judged, told) = match op {
+                            Op::Tick(_) => ("tick".to_string(), vec![], None),
+                            Op::Msg(m) => {
+                                let told = told_after(pre, m, &res);
+                                let told = if matches!(res, StepResult::Reply(_)) && holdings(&told) != holdings(&post) { Some(told) } else { None };
+                                (outcome_class(m, &res, pre, &post), judge(pre, m, &res, &post, cfgs), told)
+                            }
                         };
-                        out.push((sid, oi as u32, post, cls, judged));
+                        out.push((sid, oi as u32, post, cls, judged, told));
                     }
                     Ok(out)
                 })
                 .collect();
             for r in results {
-                for (sid, oi, post, cls, judged) in r? {
+                for (sid, oi, post, cls, judged, told) in r? {
                     transitions += 1;
                     *outcome_classes.entry(cls).or_insert(0) += 1;
+                    if let Some(t) = told {
+                        diverged_total += 1;
+                        if diverged.len() < 48 {
+                            diverged.push((sid, oi, post.clone(), t));
+                        }
+                    }
                     let k = key_of(&post);
                     let id = match index.get(&k) {
                         Some(id) => *id,
@@ -915,9 +1037,33 @@ pub fn bfs_from(cfgs: &[Cfg], alpha: &Alphabet, roots: &[State], max_depth: u32,
         states_per_depth.push(next.len() as u64);
         frontier = next;
     }
+    // follow the consequences of every recorded divergence (none on a tree whose store mirrors its replies)
+    let cons: Vec<Result<(u64, Vec<(Vec<u32>, Judged)>), String>> = diverged.par_iter().map(|(_, _, real, told)| consequences(real, told, cfgs, alpha, 2)).collect();
+    let mut consequence_steps = 0u64;
+    for ((sid, oi, _, _), r) in diverged.iter().zip(cons) {
+        let (n, fs) = r?;
+        consequence_steps += n;
+        for (extra, jd) in fs {
+            let fk = format!("told|{}|{}", jd.property, jd.oracle);
+            if found.iter().filter(|f| f.v.oracle == jd.oracle && f.v.sig.get("basis").is_some()).count() >= 3 {
+                continue;
+            }
+            found_keys.insert(fk);
+            let mut p = path_to(&parents, *sid);
+            p.push(*oi);
+            p.extend(extra);
+            let ops: Vec<&Op> = p.iter().map(|i| &alpha.ops[*i as usize]).collect();
+            let root = root_of(&parents, *sid);
+            let mut v = Violation::new(jd.oracle, jd.what, case_json_from(&states[root as usize], &ops, cfgs));
+            for (k, val) in jd.sig {
+                v = v.sig(k, val);
+            }
+            found.push(Found { property: jd.property, v });
+        }
+    }
     let reached = states.iter().cloned().zip(depth_of.iter().copied()).filter(|(_, d)| *d <= keep_reached_depth).collect();
     Ok((
-        BfsStats { states: states.len() as u64, transitions, depth_completed, capped, outcome_classes, states_per_depth, samples, reached, parents },
+        BfsStats { states: states.len() as u64, transitions, depth_completed, capped, outcome_classes, states_per_depth, samples, reached, parents, diverged_total, consequence_steps },
         found,
     ))
 }
@@ -1116,10 +1262,28 @@ pub fn replay_case(case: &Value, cfgs: &[Cfg]) -> Result<Vec<Found>, String> {
         return Ok(found);
     }
     let mut done: Vec<Op> = vec![];
+    let mut told = st.clone();
     for o in ops {
         let op = op_from_json(o, cfgs)?;
         let (res, post) = step(&st, &op, cfgs)?;
         done.push(op.clone());
+        match &op {
+            Op::Tick(dt) => told = shift(&told, *dt),
+            Op::Msg(m) => {
+                if holdings(&told) != holdings(&st) {
+                    eprintln!("    (the clients were told {}, the store holds {})", state_json(&told), state_json(&st));
+                    for jd in judge_told(&told, m, &res, &post, cfgs) {
+                        let refs: Vec<&Op> = done.iter().collect();
+                        let mut v = Violation::new(jd.oracle, jd.what, case_json(&refs, cfgs));
+                        for (k, val) in jd.sig {
+                            v = v.sig(k, val);
+                        }
+                        out.push(Found { property: jd.property, v });
+                    }
+                }
+                told = told_after(&told, m, &res);
+            }
+        }
         if let Op::Msg(m) = &op {
             eprintln!("  step {:?}\n    -> {:?}\n    rows {}", op_json(&op, cfgs).to_string(), res, state_json(&post));
             for jd in judge(&st, m, &res, &post, cfgs) {
